@@ -107,6 +107,7 @@ REQUIRED_CLASSES = (
 BUDGET_S = {"quick": 600, "thorough": 3000}   # generous: the machine is shared; CPU cost is ~1.5 / ~25 core-minutes
 
 EPS_G = 1e-9      # erf-based shapes
+SMALL_L = 5e-3    # see _compare: residual false convergence of the quadrature stopping rule stays below this fraction of the peak bin
 EPS_L = 2e-4      # Lorentzian parts: GaussianQuadrature rtol 1e-5 per bin on successive iterates, allow 20x
 POINT = (0.3, -0.2, 0.1)
 WINDOW_ORDER = ["contains", "isolate", "inside-core", "low-straddle", "high-straddle", "between", "cutoff-edge-low", "cutoff-edge-high",
@@ -676,15 +677,15 @@ def _compare(acc, ls, np, model, comps, sel, a, rad, lo, hi, bins, pol, wcls, bl
     # signature labels: Lorentzian parts integrated on medium / coarse grids carry only the grid class (the per-bin quadrature is
     # the suspect there, whichever of bin-average / integral trips first); everywhere else the signature names the oracle,
     # polarisation, B class and window class of the first failing point in canonical order
-    lq = has_l and cls in ("medium", "coarse")
-    if lq:
-        tail = "binw/fwhm=%s" % cls
-        group = ("lq", cls)
-        rank = (WINDOW_ORDER.index(wcls), POLS.index(pol), bins, rad)
-    else:
-        tail = kindlab + (":binw/fwhm=fine" if (has_l and cls) else "") + ("" if blab is None else ":" + blab) + ":pol=%s:window=%s" % (pol, wcls)
-        group = (kindlab, "fine" if has_l else None, blab)
-        rank = (POLS.index(pol), WINDOW_ORDER.index(wcls), bins, rad)
+    # Since the fix of the per-bin Lorentzian integration (panels <= 1 FWHM) the only deviations left on medium / coarse
+    # grids are *small* ones (GaussianQuadrature's stopping rule - two successive orders agree to rtol - is occasionally met by
+    # coincidence at orders 1/2 on the panel next to the line centre).  Those collapse to one signature per grid class, tagged
+    # 'small'; anything larger than SMALL_L of the peak bin gets the full signature (oracle, pol, B class, window class).
+    lq = False
+    lq_small = has_l and cls in ("medium", "coarse")
+    tail = kindlab + ((":binw/fwhm=%s" % cls) if (has_l and cls) else "") + ("" if blab is None else ":" + blab) + ":pol=%s:window=%s" % (pol, wcls)
+    group = (kindlab, cls if has_l else None, blab)
+    rank = (POLS.index(pol), WINDOW_ORDER.index(wcls), bins, rad)
     where = "pol=%s window=%s %.6f..%.6f nm, %d bins, radiance %g" % (pol, wcls, lo, hi, bins, rad)
     if not np.all(np.isfinite(a)):
         acc.add(("nonfinite",) + group, rank, "C02:%s:non-finite-sample:%s" % (model, tail), "non-finite sample; " + where, "finite", a.tolist())
@@ -693,7 +694,12 @@ def _compare(acc, ls, np, model, comps, sel, a, rad, lo, hi, bins, pol, wcls, bl
         acc.add(("neg",) + group, rank, "C02:%s:negative-sample:%s" % (model, tail), "negative sample; " + where, ">= 0", float(a.min()))
     dev = np.abs(a - ref)
     bad_bin = bool(np.any(dev > eps * sc))
-    if bad_bin:
+    if bad_bin and lq_small and float(dev.max()) <= SMALL_L * sc:
+        i = int(np.argmax(dev))
+        acc.add(("lq-small", cls), (0,) + rank, "C02:%s:lorentzian-bin-integral:small-deviation:binw/fwhm=%s" % (model, cls),
+                "bin %d of %d differs from radiance x bin-average of the normalised profile by %.3g of the peak bin (< %g); %s" % (i, bins, dev[i] / sc, SMALL_L, where),
+                float(ref[i]), float(a[i]))
+    elif bad_bin:
         i = int(np.argmax(dev))
         acc.add((("bin",) + group) if not lq else group, (0,) + rank, "C02:%s:%s:%s" % (model, "lorentzian-bin-integral" if lq else "bin-average", tail),
                 "bin %d of %d differs from radiance x bin-average of the normalised profile by %.3g of the peak bin; %s" % (i, bins, dev[i] / sc if sc > 0 else float("inf"), where),
@@ -703,6 +709,10 @@ def _compare(acc, ls, np, model, comps, sel, a, rad, lo, hi, bins, pol, wcls, bl
         lw = sum(c[5] for c in sel if c[2] == "L")
         floor = rad * (4e-16 * (bins + 4) + 2e-5 * lw)
         if not abs(e_int - o_int) <= eps * max(abs(e_int), abs(o_int)) + floor:
+            if lq_small and abs(e_int - o_int) <= SMALL_L * sc * delta * bins:
+                acc.add(("lq-small", cls), (1,) + rank, "C02:%s:lorentzian-bin-integral:small-deviation:binw/fwhm=%s" % (model, cls),
+                        "sum(samples) x delta differs from radiance x fraction of the profile inside the window by less than %g of (peak bin x window); %s" % (SMALL_L, where), e_int, o_int)
+                return nz
             acc.add((("int",) + group) if not lq else group, (1,) + rank, "C02:%s:%s:%s" % (model, "lorentzian-bin-integral" if lq else "integral", tail),
                     "sum(samples) x delta differs from radiance x fraction of the profile inside the window; " + where, e_int, o_int)
     return nz
